@@ -460,6 +460,14 @@ func RunC07(rt *Runtime, sc *Scenario) RunResult {
 		rt.c07StaleSource(sc, &res, violate)
 	}
 
+	// location phase: a build with ../-prefixed sources from the primary tree,
+	// then the same build from the relocated copy while the primary tree is
+	// hidden (renamed away). Anything remembered from the first location (a
+	// cached working directory or absolute path) then fails or differs.
+	if len(plan.Formats) == 0 && res.Trouble == "" {
+		rt.c07Location(sc, &res, violate)
+	}
+
 	// reach probe: without a fixed mtime two simulated clocks must give
 	// different bytes (otherwise the clock seam does not reach the code)
 	if plan.ProbeConfig != "" && len(plan.Formats) == 0 {
@@ -491,6 +499,45 @@ func RunC07(rt *Runtime, sc *Scenario) RunResult {
 	res.LogHash = elog.Sum()
 	res.Sample = map[string]any{"run": sc.Run, "features": w.Features, "mtime_fixed_by": w.MTimeFixed, "envs": plan.Envs}
 	return res
+}
+
+func (rt *Runtime) c07Location(sc *Scenario, res *RunResult, violate func(Violation)) {
+	w := &sc.World
+	here := Env07{ClockOffsetS: 12 * 3600, GoMaxProcs: 4, SrcMode: "dotdot"}
+	there := Env07{ClockOffsetS: 12 * 3600, GoMaxProcs: 4, SrcMode: "dotdot", Relocate: true}
+	hidden := rt.Root + ".hidden"
+	for _, f := range []string{Formats[sc.Run%len(Formats)], Formats[(sc.Run+2)%len(Formats)]} {
+		b1 := rt.buildUnder(w, "", f, &here)
+		res.Counters["builds"]++
+		if b1.err != nil {
+			continue
+		}
+		// make sure the relocated copy exists before the primary disappears
+		pre := rt.buildUnder(w, "", f, &there)
+		res.Counters["builds"]++
+		if pre.err != nil {
+			continue
+		}
+		if err := os.Rename(rt.Root, hidden); err != nil {
+			continue
+		}
+		b2 := rt.buildUnder(w, "", f, &there)
+		os.Chdir("/")
+		if err := os.Rename(hidden, rt.Root); err != nil {
+			res.Trouble = "cannot restore the primary tree: " + err.Error()
+			return
+		}
+		res.Counters["builds"]++
+		res.Counters["probe.location_checks"]++
+		ee := there
+		if b2.err != nil {
+			violate(Violation{Oracle: "A", Format: f, Group: "depends-on-first-location", Env: &ee,
+				Detail: fmt.Sprintf("%s: after a build from one source tree, the same build from a copy at another place fails once the first tree is gone: %s", f, scrub(rt, b2.err.Error()))})
+		} else if !bytes.Equal(b2.bytes, b1.bytes) {
+			violate(Violation{Oracle: "A", Format: f, Group: "depends-on-first-location", Env: &ee,
+				Detail: fmt.Sprintf("%s: the build from a copy of the tree at another place differs from the build at the first place (%s)", f, firstDiff(b2.bytes, b1.bytes))})
+		}
+	}
 }
 
 // mutateSameSize changes the meaning of a source without changing its length.
